@@ -79,8 +79,10 @@ def expr(e):
             return "(.var %s)" % lstr("sys.byteorder")      # the host byte order is an input of the block
         return "(.attr %s %s)" % (expr(e.value), lstr(e.attr))
     if isinstance(e, ast.BinOp):
-        if is_strconst(e.left):
+        if is_strconst(e.left) and isinstance(e.op, ast.Mod):
             raise Untranslatable("string formatting with %")
+        if isinstance(e.op, ast.Add) and (is_str(e.left) or is_str(e.right)):
+            return "(.concat %s %s)" % (expr(e.left), expr(e.right))          # text + text
         op = {ast.Add: "add", ast.Sub: "sub", ast.Mult: "mul", ast.BitAnd: "band", ast.BitOr: "bor",
               ast.RShift: "shr", ast.LShift: "shl", ast.Mod: "mod", ast.FloorDiv: "floordiv"}.get(type(e.op))
         if not op:
@@ -146,6 +148,17 @@ def expr(e):
     if isinstance(e, ast.Call) and isinstance(e.func, ast.Attribute) and e.func.attr == "startswith" \
             and len(e.args) == 1 and not e.keywords:
         return "(.startswith %s %s)" % (expr(e.func.value), expr(e.args[0]))
+    if isinstance(e, (ast.List, ast.Tuple)) and not e.elts:
+        return ".emptyList"                                                    # [] / ()
+    if isinstance(e, ast.Call) and isinstance(e.func, ast.Attribute) and e.func.attr == "get" \
+            and len(e.args) == 1 and not e.keywords:
+        return "(.getAttr %s %s)" % (expr(e.func.value), expr(e.args[0]))      # element.get(key)
+    if isinstance(e, ast.Call) and isinstance(e.func, ast.Attribute) and e.func.attr == "replace" \
+            and len(e.args) == 2 and not e.keywords:
+        return "(.replace %s %s %s)" % (expr(e.func.value), expr(e.args[0]), expr(e.args[1]))
+    if isinstance(e, ast.Call) and isinstance(e.func, ast.Attribute) and e.func.attr == "find" \
+            and len(e.args) == 2 and not e.keywords and is_intconst(e.args[1]) and e.args[1].value >= 0:
+        return "(.findFrom %s %s %d)" % (expr(e.func.value), expr(e.args[0]), e.args[1].value)
     if isinstance(e, ast.Call) and ast.unparse(e.func) == "os.path.join" and len(e.args) == 2 and not e.keywords \
             and isinstance(e.args[1], ast.Constant) and e.args[1].value == "":
         return "(.joinEmpty %s)" % expr(e.args[0])
@@ -177,6 +190,8 @@ def expr(e):
     if isinstance(e, ast.Subscript) and isinstance(e.slice, ast.Constant) and isinstance(e.slice.value, int) \
             and e.slice.value >= 0:
         return "(.idx %s %d)" % (expr(e.value), e.slice.value)
+    if isinstance(e, ast.Subscript) and isinstance(e.value, ast.Name) and isinstance(e.slice, (ast.Name, ast.Call)):
+        return "(.subscr %s %s)" % (expr(e.value), expr(e.slice))              # d[key]
     raise Untranslatable(ast.dump(e)[:80])
 
 
@@ -192,6 +207,14 @@ def stmts(body, sink, tail=False):
                 head = stmts(body[:i], sink, False) if i else None
                 t = "(.ite %s %s %s)" % (expr(s.test), stmts(s.body, sink, True), stmts(rest, sink, True))
                 return t if head is None else "(.seq %s %s)" % (head, t)
+    # in a loop body: `if c: …; continue` followed by more statements is `if c: … else: <the rest>`
+    for i, s in enumerate(body):
+        if isinstance(s, ast.If) and s.body and isinstance(s.body[-1], ast.Continue):
+            if s.orelse or any(isinstance(n, ast.Continue) for x in s.body[:-1] for n in ast.walk(x)):
+                raise Untranslatable("continue outside the pattern `if c: …; continue`")
+            t = "(.ite %s %s %s)" % (expr(s.test), stmts(s.body[:-1], sink, False),
+                                     stmts(body[i + 1:], sink, tail))
+            return t if i == 0 else "(.seq %s %s)" % (stmts(body[:i], sink, False), t)
     out = None
     for i, s in reversed(list(enumerate(body))):
         t = stmt(s, sink, tail and i == len(body) - 1)
@@ -208,7 +231,77 @@ def always_returns(body):
     return isinstance(last, ast.If) and always_returns(last.body) and always_returns(last.orelse)
 
 
+# functions whose calls are inlined (name → FunctionDef): `f(a)` inside a simple statement becomes
+# `f.p = a; <body of f, locals renamed f.x, return e as f.@ret = e>` followed by the statement with `f.@ret` for the call
+INLINE = {}
+
+
+class inlining(object):
+    def __init__(self, fns):
+        self.fns = dict((f.name, f) for f in fns)
+
+    def __enter__(self):
+        global INLINE
+        self.old, INLINE = INLINE, self.fns
+
+    def __exit__(self, *a):
+        global INLINE
+        INLINE = self.old
+
+
+def inline_call(s):
+    """(prelude text or None, statement with the call replaced)"""
+    import copy
+    if not INLINE or not isinstance(s, (ast.Expr, ast.Assign, ast.AugAssign, ast.Return)):
+        return None, s
+    calls = [n for n in ast.walk(s) if isinstance(n, ast.Call) and isinstance(n.func, ast.Name) and n.func.id in INLINE]
+    if not calls:
+        return None, s
+    if len(calls) != 1:
+        raise Untranslatable("more than one inlined call in a statement")
+    call, fn = calls[0], INLINE[calls[0].func.id]
+    params = [a.arg for a in fn.args.args]
+    if call.keywords or len(call.args) != len(params) or fn.args.defaults or fn.args.vararg or fn.args.kwarg \
+            or fn.args.kwonlyargs:
+        raise Untranslatable("inlined call with other than plain positional arguments")
+    pre = fn.name + "."
+    local = set(params) | set(n.id for n in ast.walk(fn) if isinstance(n, ast.Name) and isinstance(n.ctx, ast.Store))
+
+    class R(ast.NodeTransformer):
+        def visit_Name(self, n):
+            return ast.copy_location(ast.Name(id=pre + n.id, ctx=n.ctx), n) if n.id in local else n
+
+    body = [R().visit(copy.deepcopy(x)) for x in fn.body]
+    binds = ["(.assign %s %s)" % (lstr(pre + p), expr(a)) for p, a in zip(params, call.args)]
+    saved = (ABSTRACT, STR_VARS, RETURN_TAGS)
+    with abstracting({}, str_vars=(), return_tags=False):
+        with inlining([]):
+            text = stmts(body, None, True).replace(lstr("@ret"), lstr(pre + "@ret"))
+    for b in reversed(binds):
+        text = "(.seq %s %s)" % (b, text)
+
+    class C(ast.NodeTransformer):
+        def visit_Call(self, n):
+            if n is call_copy[0]:
+                return ast.Name(id=pre + "@ret", ctx=ast.Load())
+            return self.generic_visit(n)
+
+    s2 = copy.deepcopy(s)
+    # locate the same call in the copy (same position in walk order)
+    idx = [i for i, n in enumerate(ast.walk(s)) if n is call][0]
+    call_copy = [list(ast.walk(s2))[idx]]
+    s2 = C().visit(s2)
+    return text, s2
+
+
 def stmt(s, sink, tail=False):
+    prelude, s = inline_call(s)
+    if prelude is not None:
+        return "(.seq %s %s)" % (prelude, stmt1(s, sink, tail))
+    return stmt1(s, sink, tail)
+
+
+def stmt1(s, sink, tail=False):
     if isinstance(s, ast.Return):
         if not tail:
             raise Untranslatable("return that is not in tail position")
@@ -225,6 +318,13 @@ def stmt(s, sink, tail=False):
         return "(.assign %s %s)" % (lstr("@ret"), expr(s.value))
     if isinstance(s, ast.Assign) and len(s.targets) == 1 and isinstance(s.targets[0], ast.Name):
         return "(.assign %s %s)" % (lstr(s.targets[0].id), expr(s.value))
+    if isinstance(s, ast.AugAssign) and isinstance(s.target, ast.Name) and isinstance(s.op, ast.Add) \
+            and isinstance(s.value, ast.Tuple) and len(s.value.elts) == 1:
+        return "(.append %s %s)" % (lstr(s.target.id), expr(s.value.elts[0]))          # t += (e,)
+    if isinstance(s, ast.For) and isinstance(s.target, ast.Name) and not s.orelse:
+        if any(isinstance(n, (ast.Break, ast.Return)) for x in s.body for n in ast.walk(x)):
+            raise Untranslatable("break / return inside a for loop")
+        return "(.forIn %s %s %s)" % (lstr(s.target.id), expr(s.iter), stmts(s.body, None, False))
     if isinstance(s, ast.AugAssign) and isinstance(s.target, ast.Name) and isinstance(s.op, ast.Add):
         return "(.augAdd %s %s)" % (lstr(s.target.id), expr(s.value))
     if isinstance(s, ast.If):
@@ -247,6 +347,10 @@ def stmt(s, sink, tail=False):
                 out = "(.seq %s %s)" % (q, out)
             return out
         return "(.assign %s %s)" % (lstr("@item"), expr(a0))
+    if isinstance(s, ast.Expr) and isinstance(s.value, ast.Call) and isinstance(s.value.func, ast.Attribute) \
+            and s.value.func.attr == "append" and isinstance(s.value.func.value, ast.Name) \
+            and len(s.value.args) == 1 and not s.value.keywords:
+        return "(.append %s %s)" % (lstr(s.value.func.value.id), expr(s.value.args[0]))     # x.append(e)
     if isinstance(s, ast.Break):
         if not tail:
             raise Untranslatable("break that is not the last thing the loop body does")
@@ -543,7 +647,101 @@ def generate_ce(repo):
     return "\n".join(parts)
 
 
-GENERATORS = [("SliceSrc.lean", generate), ("DapSrc.lean", generate_dap), ("DodsSrc.lean", generate_dods),
+def generate_lib(repo):
+    """lib.py `_quote` / `unquote` (C12's `Quote.quote` / `Quote.unquote`)"""
+    lib = parse_src(repo, "lib.py")
+    QUOTED = "quote_(name.encode('utf-8'), safe=safe)"
+
+    def body_of(name):
+        fn = find_function(lib, name)
+        return [x for x in fn.body if not (isinstance(x, ast.Expr) and is_strconst(x.value))]
+
+    def quote_split():
+        body = body_of("_quote")
+        cut = [i for i, x in enumerate(body) if QUOTED in ast.unparse(x)]
+        if len(cut) != 1:
+            raise Untranslatable("expected exactly one statement that calls %s" % QUOTED)
+        return stmts(body[:cut[0]], None)
+
+    def quote_whole():
+        with abstracting({QUOTED: "@quoted"}, str_vars={"prefix"}):
+            return stmts(body_of("_quote"), None, tail=True)
+
+    def unquote_body():
+        body = body_of("unquote")
+        last = body[-1]
+        if not (isinstance(last, ast.Return) and ast.unparse(last.value) == "unquote_(name)"):
+            raise Untranslatable("expected `return unquote_(name)` last")
+        return stmts(body[:-1], None)
+
+    parts = [HEADER,
+             block("src_quote_split", "lib.py _quote: everything before the statement that calls urllib's quote "
+                   "(`safe = …`, the dap4-prefix test, `prefix` / `name` split)", quote_split),
+             block("src_quote", "lib.py _quote: the whole body; `quote_(name.encode('utf-8'), safe=safe)` is the input "
+                   "`@quoted` (its argument `name` is tied by src_quote_split), `return e` is `@ret = e`", quote_whole),
+             block("src_unquote_replaces", "lib.py unquote: everything before `return unquote_(name)` (the three "
+                   "`.replace` passes on `name`)", unquote_body),
+             "end Pydap.Gen\n"]
+    return "\n".join(parts)
+
+
+def generate_dmr(repo):
+    """parsers/dmr.py `_dim_key`, `get_dim_names`, `get_dim_sizes` (C11's `getDimNames`, `dimSize`, `varShape`)"""
+    dmr = parse_src(repo, "parsers", "dmr.py")
+
+    def body_after_findall(name):
+        fn = find_function(dmr, name)
+        body = [x for x in fn.body if not (isinstance(x, ast.Expr) and is_strconst(x.value))]
+        if ast.unparse(body[0]) != "dimension_elements = element.findall('Dim')":
+            raise Untranslatable("expected `dimension_elements = element.findall(\"Dim\")` first")
+        return body[1:]
+
+    def dim_key():
+        return stmts(find_function(dmr, "_dim_key").body, None, tail=True)
+
+    def dim_names():
+        with inlining([find_function(dmr, "_dim_key")]):
+            return stmts(body_after_findall("get_dim_names"), None, tail=True)
+
+    def dim_sizes():
+        with inlining([find_function(dmr, "_dim_key")]):
+            return stmts(body_after_findall("get_dim_sizes"), None, tail=True)
+
+    parts = [HEADER,
+             block("src_dim_key", "parsers/dmr.py _dim_key: the whole body (`return e` is `@ret = e`)", dim_key),
+             block("src_get_dim_names", "parsers/dmr.py get_dim_names after `dimension_elements = element.findall(\"Dim\")` "
+                   "(an input: the list of elements); the loop is a MiniPy `forIn`, `if …: continue` is `if … else <rest>`, "
+                   "the call `_dim_key(name)` is inlined (variables `_dim_key.name`, `_dim_key.@ret`)", dim_names),
+             block("src_get_dim_sizes", "parsers/dmr.py get_dim_sizes after `dimension_elements = element.findall(\"Dim\")`; "
+                   "`dimension_sizes += (e,)` is an append; `named_dimensions` is an input (None or a dict str → int)",
+                   dim_sizes),
+             "end Pydap.Gen\n"]
+    return "\n".join(parts)
+
+
+def generate_ssf(repo):
+    """wsgi/ssf.py ServerSideFunctions.handle: the pass-through test (C19's `Ssf.route`)"""
+    ssf = parse_src(repo, "wsgi", "ssf.py")
+
+    def pass_test():
+        fn = find_method(ssf, "ServerSideFunctions", "handle")
+        at = [i for i, x in enumerate(fn.body) if ast.unparse(x) == "(path, response) = req.path.rsplit('.', 1)"
+              or ast.unparse(x) == "path, response = req.path.rsplit('.', 1)"]
+        if not at or at[0] + 1 >= len(fn.body) or not isinstance(fn.body[at[0] + 1], ast.If):
+            raise Untranslatable("expected `path, response = req.path.rsplit(\".\", 1)` followed by an if statement")
+        with abstracting({}, str_vars={"response"}, return_tags=True):
+            return stmts([fn.body[at[0] + 1]], None, tail=True)
+
+    parts = [HEADER,
+             block("src_ssf_pass_test", "wsgi/ssf.py ServerSideFunctions.handle: the statement after the first "
+                   "`path, response = req.path.rsplit(\".\", 1)` (DAS requests and requests without calls are passed "
+                   "through); `called` and `response` are inputs, `return e` is `@ret = \"<source text of e>\"`",
+                   pass_test),
+             "end Pydap.Gen\n"]
+    return "\n".join(parts)
+
+
+GENERATORS = [("SsfSrc.lean", generate_ssf), ("DmrSrc.lean", generate_dmr), ("LibSrc.lean", generate_lib), ("SliceSrc.lean", generate), ("DapSrc.lean", generate_dap), ("DodsSrc.lean", generate_dods),
               ("AppSrc.lean", generate_app), ("CeSrc.lean", generate_ce)]
 
 
